@@ -471,7 +471,7 @@ fn e_kb_validate(s: &str) -> Out {
     st("validate_key_binding_jwt(AlwaysOk)");
     let v = SdJwtCredentialValidator::with_signature_verifier(AlwaysOk, SdObjectDecoder::new_with_sha256());
     acc_any |= v.validate_key_binding_jwt(&sd, &*HOLDER_DOC, &opts).is_ok();
-    st("validate_key_binding_jwt(RealVerifier, issuer doc as holder)");
+    st("validate_key_binding_jwt(RealVerifier)"); // (holder document := the issuer fixture document)
     let v = SdJwtCredentialValidator::with_signature_verifier(RealVerifier, SdObjectDecoder::new_with_sha256());
     bb(v.validate_key_binding_jwt(&sd, &*ISSUER_DOC, &opts).is_ok());
   }
